@@ -285,6 +285,26 @@ impl Rw {
                 return syn::parse2(ts).ok();
             }
         }
+        // R-STRSLICE: X[a..b].to_string() / .to_owned()  (only a str can be sliced and then turned into a String this way)
+        if (name == "to_string" || name == "to_owned") && m.args.is_empty() {
+            if let Expr::Index(ix) = recv {
+                if let Expr::Range(rg) = &*ix.index {
+                    if let syn::RangeLimits::HalfOpen(_) = rg.limits {
+                        let x = &ix.expr;
+                        let new = match (&rg.start, &rg.end) {
+                            (Some(a), Some(b)) => Some(quote! { (#x).rws_substring(#a, #b) }),
+                            (None, Some(b)) => Some(quote! { (#x).rws_substring(0, #b) }),
+                            (Some(a), None) => Some(quote! { (#x).rws_substring_from(#a) }),
+                            _ => None,
+                        };
+                        if let Some(ts) = new {
+                            self.log("R-STRSLICE", sp, "X[a..b].to_string() -> (X).rws_substring(a, b)");
+                            return syn::parse2(ts).ok();
+                        }
+                    }
+                }
+            }
+        }
         // X.chars().rev().collect::<String>()
         if name == "collect" && m.args.is_empty() {
             if let Some(rev) = Self::is_method(recv, "rev", 0) {
